@@ -37,6 +37,10 @@ pub fn build(full_name: &str, level: u8) -> Option<Scenario> {
                 let k = if n.contains("-stale") { 1 } else { 2 };
                 s.nodes[k].priority = 1;
             }
+            if n.contains("-nprio") {
+                // a negative priority is legal (an unlikely leader)
+                s.nodes[1].priority = -1;
+            }
             s.crashable = vec![1, 2, 3];
             s.max_index = 8;
             if n.contains("-nosync") {
@@ -797,6 +801,37 @@ pub fn build(full_name: &str, level: u8) -> Option<Scenario> {
             if n.contains("-elect") {
                 s.prop_sizes = vec![3];
             }
+            if n.contains("-two") {
+                // two inputs before a Ready round: a committed batch can span entries inherited
+                // at the election and the new leader's own proposals
+                s.inputs_per_ready = 2;
+            }
+            if n.contains("-inh2") {
+                // scripted: node 1's payload entry reached node 2 only; node 2 (elected by node
+                // 3) leads term 2 with that inherited uncommitted entry; it proposes itself with
+                // two inputs per Ready round, so one committed batch can hold the inherited
+                // entry, the no-op and its own payload
+                s.inputs_per_ready = 2;
+                s.prefix = vec![
+                    Action::Timeout(1),
+                    Action::Settle,
+                    Action::Propose(1, 0),
+                    Action::Settle0(1),
+                    Action::Deliver(1, 2),
+                    Action::Settle0(2),
+                    Action::DropAll,
+                    Action::Timeout(2),
+                    Action::Settle0(2),
+                    Action::Deliver(2, 3),
+                    Action::Settle0(3),
+                    Action::Deliver(3, 2),
+                    Action::Settle0(2),
+                    Action::Isolate(1),
+                ];
+                s.timeoutable = vec![];
+                s.clients_at = vec![2];
+                s.crashable = vec![];
+            }
             let cap_variant = n.contains("-cap");
             let mix = n.contains("-mix");
             s.caps = caps(|c| {
@@ -820,6 +855,12 @@ pub fn build(full_name: &str, level: u8) -> Option<Scenario> {
                 if n.contains("-fetch") {
                     c.fetches = 1;
                 }
+                if n.contains("-p3") {
+                    // three proposals and nothing else: admission after a partial commit
+                    c.props = 3;
+                    c.beats = 0;
+                    c.reorders = 0;
+                }
                 if n.contains("-elect") {
                     c.timeouts = 2;
                     c.props = if live { 1 } else { 2 } + (l as u8) / 2;
@@ -833,6 +874,12 @@ pub fn build(full_name: &str, level: u8) -> Option<Scenario> {
                         c.timeouts = 1;
                         c.props = 3;
                         c.drops = 0;
+                    }
+                    if n.contains("-inh2") {
+                        c.timeouts = 0;
+                        c.props = 2 + (l as u8).min(1);
+                        c.drops = 0;
+                        c.lazy = 2;
                     }
                 }
                 if n.contains("-lazy3") {
@@ -923,6 +970,11 @@ pub fn build(full_name: &str, level: u8) -> Option<Scenario> {
                     CcSpec::V1(1, 2),                      // illegal while joint
                     CcSpec::V2(0, vec![(1, 2)]),           // illegal while joint
                 ];
+                if n.contains("-xe") {
+                    // an empty change list with an explicit transition: apply_conf_change reads
+                    // it as "enter joint" (only transition Auto + no changes means "leave")
+                    s.cc_menu = vec![s.cc_menu[0].clone(), CcSpec::V2(2, vec![]), CcSpec::V2(1, vec![])];
+                }
             } else if n.contains("-rm1") {
                 // the leader removes itself (raft-rs lets it keep leading until it steps down)
                 s.prefix = vec![Action::Timeout(1), Action::Settle];
@@ -1067,6 +1119,15 @@ pub fn build(full_name: &str, level: u8) -> Option<Scenario> {
                     nd.apply_lag = k == 0;
                 }
             }
+            if n.contains("-auto") {
+                // one auto-leave joint change with ordinary proposals pipelined behind it: when
+                // the (lagging) leader applies the enter-joint entry its log already holds later
+                // entries, and the leave-joint entry it appends by itself goes behind them
+                s.cc_menu = vec![CcSpec::V2(0, vec![(0, 4), (1, 3)])];
+                s.clients_at = vec![1];
+                s.timeoutable = vec![];
+                s.crashable = vec![];
+            }
             if n.contains("-joint") && l == 0 {
                 // level 0: two proposals out of {enter (again), leave}, nothing else
                 s.cc_menu.truncate(2);
@@ -1094,6 +1155,7 @@ pub fn build(full_name: &str, level: u8) -> Option<Scenario> {
                 s.transfer_targets = vec![2];
             }
             let (ccs, props, to, crashes, mt, mi, xf, lazy) = match l {
+                0 | 1 if n.contains("-auto") => (1, 1 + l as u8, 0, 0, 2, 7, 0, 1),
                 0 | 1 if n.contains("-a1") => (1, l as u8, 0, 0, 2, 6, 0, 1),
                 0 if n.contains("-fresh") => (0, 0, 1, 1, 3, 6, 0, 1),
                 1 if n.contains("-fresh") => (0, 1, 1, 1, 3, 7, 0, 1),
@@ -1227,6 +1289,31 @@ pub fn build(full_name: &str, level: u8) -> Option<Scenario> {
                 s.prefix.push(Action::Crash(2, 9));
                 s.down_forever = vec![2];
             }
+            if n.contains("-prec") {
+                // pre-vote on. Follower 2 asked for a snapshot while the leader's append of entry
+                // 3 to it was still in flight; the leader's answer (a snapshot at index 2) is in
+                // flight behind that append. Node 2 then timed out and pre-campaigns (its
+                // pre-vote requests were lost): a pre-candidate with a snapshot request pending
+                for nd in s.nodes.iter_mut() {
+                    nd.pre_vote = true;
+                }
+                s.prefix = vec![
+                    Action::Timeout(1),
+                    Action::Settle,
+                    Action::Propose(1, 0),
+                    Action::Settle,
+                    Action::Propose(1, 0),
+                    Action::Settle0(1),
+                    Action::RequestSnap(2),
+                    Action::Settle0(2),
+                    Action::Deliver(2, 1),
+                    Action::Settle0(1),
+                    Action::Timeout(2),
+                    Action::Settle0(2),
+                    Action::Drop(2, 1),
+                    Action::Drop(2, 3),
+                ];
+            }
             if n.contains("-jauto") {
                 // an implicit (auto-leave) joint change adds learner 4; node 3 applied the
                 // enter-joint entry and went down before the leave-joint entry was committed;
@@ -1282,6 +1369,10 @@ pub fn build(full_name: &str, level: u8) -> Option<Scenario> {
             s.clients_at = vec![1];
             s.crashable = vec![3];
             s.timeoutable = vec![3];
+            if n.contains("-prec") {
+                s.crashable = vec![];
+                s.timeoutable = vec![];
+            }
             if n.contains("-lazy") {
                 s.inputs_per_ready = 2;
             }
@@ -1337,6 +1428,10 @@ pub fn build(full_name: &str, level: u8) -> Option<Scenario> {
                 if n.contains("-busy") {
                     // the leader's application is still building the snapshot once
                     c.snapbusy = 1;
+                }
+                if n.contains("-to1") {
+                    // the lagging follower may time out once (with -gpv: pre-campaign)
+                    c.timeouts = 1;
                 }
                 if n.contains("-unr") {
                     // the application reports the snapshot receiver unreachable once
@@ -1755,7 +1850,18 @@ pub fn build(full_name: &str, level: u8) -> Option<Scenario> {
                     c.props = (l as u8).min(1);
                     c.beats = 2 + l as u8;
                 }
+                if n.contains("-two") {
+                    // the leader takes two inputs before a Ready round: a proposal can be
+                    // appended, but not yet persisted, when the transfer request arrives
+                    c.props = props.max(1);
+                    c.lazy = 2;
+                }
             });
+            if n.contains("-two") {
+                s.inputs_per_ready = 2;
+                s.clients_at = vec![1];
+                s.transfer_targets = vec![2, 3];
+            }
         }
         // ------------------------------------------------------------ LEASE
         // pre_vote + check_quorum everywhere; leader 1 and a majority in lock-step; the
@@ -1828,6 +1934,10 @@ pub fn build(full_name: &str, level: u8) -> Option<Scenario> {
     }
     if name.contains("-samectx") {
         s.same_read_ctx = true;
+    }
+    if name.contains("-emptyctx") {
+        // the first read request carries the empty byte string as its (unique) context
+        s.empty_first_ctx = true;
     }
     if name.contains("-camp") {
         // the application may call RawNode::campaign() once, on any node that may time out
